@@ -50,6 +50,11 @@ func (v *Vue) evalInclude(ctx VueContext, node *html.Node, vars map[string]any, 
 		return nil, fmt.Errorf("error parsing %s (included from %s): %w", name, ctx.FormatTemplateChain(), err)
 	}
 
+	// Resolve component shorthand tags used inside the component
+	if err := v.resolveComponentTags(compDom); err != nil {
+		return nil, fmt.Errorf("error in %s (included from %s): %w", name, ctx.FormatTemplateChain(), err)
+	}
+
 	// Validate and process template tag
 	processedDom, err := v.evalTemplate(ctx, compDom, ctx.stack.EnvMap(), depth+1)
 	if err != nil {
